@@ -16,26 +16,28 @@ def vec(module, profiles, fields, nontrivial, **kw):
 SPECS = {
     # contents / returned values / panic-no-panic / capacity of every call: model vs crate (all fields), crate vs std (oracle)
     "C13": vec("BumpVerif.Props.C13",
-               [("general", 150, 45), ("bounds", 120, 45), ("iters", 90, 45), ("growth", 70, 45), ("zst", 70, 40), ("copy", 60, 40)],
+               [("general", 900, 45), ("bounds", 700, 45), ("iters", 500, 45), ("growth", 400, 45), ("zst", 400, 40), ("copy", 300, 40)],
                ["res", "len", "cap", "ids", "moved"], VEC_OPS,
+               quick_release=[("bounds", 300, 45), ("general", 200, 45)], thorough_scale=8,
                partial=["C13 per-method refinement theorems are proved for the methods listed in Props/C13.lean; "
                         "methods without a theorem there are covered by the correspondence + std side-by-side run only (see the file's header)",
                         "drain range bounds: full statement false without overflow checks (F7): C13_drain_partial + C13_drain_counterexample"],
                assumptions=["callbacks do not mutate the elements they are shown (&mut T predicates are modelled as pure answers)"]),
     # drop ledger: which destructors ran, in which order, what was handed to the caller
     "C15": vec("BumpVerif.Props.C15",
-               [("general", 150, 45), ("iters", 130, 45), ("zst", 80, 40), ("growth", 40, 40)],
+               [("general", 900, 45), ("iters", 800, 45), ("zst", 500, 40), ("growth", 200, 40)],
                ["drops", "moved", "ids", "len", "res"],
                ["pop", "remove", "swap_remove", "truncate", "clear", "resize", "drain", "splice", "drain_filter", "retain", "dedup",
                 "dedup_by", "dedup_by_key", "into_iter", "into_bump_slice", "into_boxed", "drop", "append", "split_off", "extend",
-                "clone", "insert", "push"],
+                "clone", "insert", "push"], thorough_scale=8,
                partial=["ownership preservation is proved for the methods listed in Props/C15.lean; the others are covered by the "
                         "drop-ledger oracle and the model comparison of drop/move events only"]),
     # unwinding paths: every callback index as panic point
     "C16": vec("BumpVerif.Props.C16",
-               [("panics", 420, 45), ("iters", 40, 40)],
+               [("panics", 2400, 45), ("iters", 200, 40)],
                ["res", "drops", "moved", "ids", "len"],
                ["retain", "drain_filter", "dedup_by", "dedup_by_key", "resize", "extend", "extend_from_slice", "clone", "splice",
                 "from_iter", "collect_in", "vmacro_n", "truncate", "clear", "drop", "into_iter", "drain", "into_boxed"],
+               quick_release=[("panics", 400, 45)], thorough_scale=8,
                partial=["full statement false for DrainFilter (F5): C16_drain_filter_counterexample; proved parts are named *_partial in Props/C16.lean"]),
 }
